@@ -439,8 +439,8 @@ bool TMCG_OpenPGP_Signature::CheckIntegrity
 	 const tmcg_openpgp_octets_t &hash,
 	 const int verbose) const
 {
-	if ((left.size() == 2) &&
-		((left[0] != hash[0]) || (left[1] != hash[1])))
+	if ((left.size() == 2) && ((hash.size() < 2) ||
+		(left[0] != hash[0]) || (left[1] != hash[1])))
 	{
 		if (verbose)
 		{
